@@ -20,7 +20,11 @@ harness/isoutil.iso.
 from __future__ import annotations
 
 import io
+import json
+import os
+import pathlib
 import re
+import tempfile
 import warnings
 
 import core  # noqa: F401
@@ -28,6 +32,8 @@ import c12docs as D
 import isoutil
 from rdflib import BNode, ConjunctiveGraph, Dataset, Graph, Literal, URIRef
 from rdflib.graph import QuotedGraph
+from rdflib import plugin as rdflib_plugin
+from rdflib.parser import Parser as RdflibParser, create_input_source
 
 warnings.filterwarnings("ignore")
 
@@ -35,12 +41,13 @@ ID = "C12"
 LEAN_TARGETS = ["RV.C12.Props", "RV.C12.Audit"]
 AUDIT = "RV/C12/Audit.lean"
 DRIVER = "drv_c12"
-CASES = {"quick": 3500, "thorough": 80000, "search": 20000}
+CASES = {"quick": 3000, "thorough": 80000, "search": 20000}
 RULE = ("sequences of 2-4 documents in mixed syntaxes (nt, nquads, turtle, n3, trig, rdf/xml, trix, json-ld, hext) written "
-        "by the harness' own writers and parsed into one Graph / Dataset / ConjunctiveGraph that already has content "
-        "(default graph or a named graph, IRI- or blank-node-named); non-trivial = some blank-node label string is used "
-        "by two different parse calls or equals the id of a node already in the target; distinct = distinct "
-        "(sink, init, formats, abstract documents)")
+        "by the harness' own writers and parsed, by every input route of parse(), into one Graph (Memory / SimpleMemory) / "
+        "Dataset / ConjunctiveGraph that already has content (default graph, its Graph view, or a named graph, IRI- or "
+        "blank-node-named); non-trivial = some blank-node label string is used by two different parse calls or equals the "
+        "id of a node already in the target; distinct = distinct (sink, init, formats, abstract documents); per-axis counts "
+        "of the surface audit (design.d/C12.md) are the axis.* entries of generator_distribution")
 ASSUMPTIONS = ["BNode() ids (uuid4) differ from each other and from every id already present in the target (Lean: WF)",
                "caller-requested sharing (bnode_context=, preserve_bnode_ids=True, skolemize=True) is outside the statement",
                "N3: labels are not used inside formulae (N3 scopes _:x per formula); no variables / @forAll"]
@@ -87,7 +94,7 @@ MARK_P = 13          # predicate of marker triples
 SUBJ_I, OBJ_I, PRED_I, GRAPH_I = [1, 2, 3], [1, 2, 3, 4], [10, 11, 12], [20, 21]
 
 
-RDF_IRI = {30: D.RDFNS + "first", 31: D.RDFNS + "rest", 32: D.RDFNS + "nil"}
+RDF_IRI = {30: D.RDFNS + "first", 31: D.RDFNS + "rest", 32: D.RDFNS + "nil", 33: D.RDFNS + "type"}
 RDF_IRI_REV = {v: k for k, v in RDF_IRI.items()}
 
 
@@ -121,7 +128,7 @@ def _has_formula(quads):
 
 def compatible_fmts(quads, sink):
     if _has_formula(quads):
-        return ["n3"]
+        return ["n3"] if sink != "simple" else []
     f = _doc_features(quads)
     fmts = []
     for fmt in dict.fromkeys(D.TRIPLE_FMTS + D.QUAD_FMTS):
@@ -131,34 +138,53 @@ def compatible_fmts(quads, sink):
             continue
         if f["anon_g"] and fmt not in D.ANON_G:
             continue
-        if any(q[1] == "i30" for q in quads) and fmt not in N3_FAMILY:
+        if any(q[1] == "i30" for q in quads) and fmt not in N3_FAMILY + ["xml", "json-ld"]:
             continue
         if any(q[1][0] in "nr" for q in quads) and fmt != "json-ld":
             continue
         if f["default"] and fmt in D.NO_DEFAULT:
             continue
-        if sink == "graph" and (fmt not in D.TRIPLE_FMTS or f["named"]):
+        if sink in PLAIN and (fmt not in D.TRIPLE_FMTS or f["named"]):
             continue
         if not all(label_ok(int(t[1:]), fmt) for q in quads for t in q if re.fullmatch(r"n\d+", t)):
+            continue
+        if sink == "simple" and fmt not in SIMPLE_FMTS:
             continue
         fmts.append(fmt)
     return fmts
 
 
-def _gen_style(rng):
-    return {k: rng.random() < 0.5 for k in ("group", "prefix", "sparqlprefix", "short", "anonstyle", "graphkw",
-                                            "bracedefault", "bytes", "pub", "crlf", "comment", "stream", "nocoll", "gen", "defaults")}
+ROUTES = ["location", "srcpath", "pathlib", "fileb", "filet", "insrc", "pyobj"]
+FMTARGS = ["alias", "guess"]
+JL_MODES = ["coerce", "reverse", "included", "nestgraph"]
+EXT = {"nt": ".nt", "nquads": ".nq", "turtle": ".ttl", "n3": ".n3", "trig": ".trig", "xml": ".rdf", "trix": ".trix",
+       "json-ld": ".jsonld", "hext": ".hext"}          # rdflib.util.guess_format knows all but .hext
+ALIASES = {"nt": ["ntriples", "nt11", "application/n-triples"], "nquads": ["application/n-quads"],
+           "turtle": ["ttl", "text/turtle"], "n3": ["text/n3"], "trig": ["application/trig"],
+           "xml": ["application/rdf+xml"], "trix": ["application/trix"], "json-ld": ["application/ld+json"], "hext": ["hext"]}
 
 
-def _gen_doc(rng, sink, idx, pool, earlier, init_bn):
+def _gen_style(rng, share=0.3):
+    """writer and call-route choices.  `share` = probability of each of the rarer surface axes (larger in thorough)."""
+    st = {k: rng.random() < 0.5 for k in ("group", "prefix", "sparqlprefix", "short", "anonstyle", "graphkw",
+                                           "bracedefault", "bytes", "pub", "crlf", "comment", "stream", "nocoll", "gen", "defaults")}
+    st["route"] = rng.choice(ROUTES) if rng.random() < share else None      # how the document reaches parse()
+    st["fmtarg"] = rng.choice(FMTARGS) if rng.random() < share else None    # format= by alias / left to guessing
+    st["jl"] = rng.choice(JL_MODES) if rng.random() < share else None       # JSON-LD document shape
+    for k in ("typekw", "propattr", "path", "plugin", "viewdefault", "jlopts"):
+        st[k] = rng.random() < share
+    return st
+
+
+def _gen_doc(rng, sink, idx, pool, earlier, init_bn, share=0.3):
     """abstract document for parse call #idx; `earlier` = [(I, [K…])] documents with marker triples"""
-    quadfmt = sink != "graph" and rng.random() < 0.6
-    fmt = rng.choice(D.QUAD_FMTS if quadfmt else D.TRIPLE_FMTS)
+    quadfmt = sink not in PLAIN and rng.random() < 0.6
+    fmt = rng.choice(D.QUAD_FMTS if quadfmt else D.TRIPLE_FMTS if sink != "simple" else SIMPLE_FMTS)
     anon_ok = fmt in D.ANON_SO and rng.random() < 0.5
     # "counting" documents: all-digit labels next to several [] / ( ) nodes, in the syntaxes whose parser numbers its nodes
     counting = any(k in DIGITS for k in pool) and rng.random() < 0.7
     if counting:
-        fmt = rng.choice(N3_FAMILY if sink != "graph" else N3_FAMILY[:2])
+        fmt = rng.choice(N3_FAMILY if sink not in PLAIN else N3_FAMILY[:2] if sink == "graph" else N3_FAMILY[:1])
         quadfmt = fmt == "trig"
         anon_ok = True
     legal = [k for k in pool if label_ok(k, fmt)] or [0]
@@ -186,6 +212,8 @@ def _gen_doc(rng, sink, idx, pool, earlier, init_bn):
     genrdf = fmt == "json-ld" and not counting and rng.random() < 0.4   # JSON-LD read with generalized_rdf=True
 
     def pred():
+        if rng.random() < 0.08:
+            return "i33"            # rdf:type (JSON-LD may spell it "@type", with a blank node as the type)
         if genrdf and rng.random() < 0.5:
             t = lab()               # a blank node as property key; the same labels are subjects / objects / graph names
             if t != "n%d" % EMPTY:
@@ -210,7 +238,9 @@ def _gen_doc(rng, sink, idx, pool, earlier, init_bn):
 
     quads = []
     g = gname()
-    for _ in range(rng.randint(2, 5) if counting else rng.randint(1, 4)):
+    for _ in range(rng.randint(2, 4) if counting else rng.randint(1, 4)):
+        if nxt_anon[0] >= 6:        # keep the number of interchangeable anonymous nodes small (the iso oracle is a search)
+            anon_ok = False
         if quadfmt and rng.random() < 0.45:
             g = gname()
         r = rng.random() * (0.55 if counting else 1.0)
@@ -233,7 +263,7 @@ def _gen_doc(rng, sink, idx, pool, earlier, init_bn):
                 quads.append(["i%d" % rng.choice(SUBJ_I), pred(), f2, f])
                 quads.append(["i%d" % rng.choice(SUBJ_I), pred(), ground(), f2])
             continue
-        if anon_ok and fmt in N3_FAMILY and rng.random() < (0.3 if counting else 0.08):
+        if anon_ok and fmt in N3_FAMILY + ["xml", "json-ld"] and rng.random() < (0.3 if counting else 0.1):
             # a collection  s p ( x1 … xn )  =  n anonymous cells with rdf:first / rdf:rest
             n = rng.randint(1, 3)
             cells = ["a%d" % (nxt_anon[0] + j) for j in range(n)]
@@ -251,6 +281,11 @@ def _gen_doc(rng, sink, idx, pool, earlier, init_bn):
             a = "a%d" % nxt_anon[0]
             nxt_anon[0] += 1
             quads.append([subj(), pred(), a, g])
+            if fmt == "xml" and rng.random() < 0.4:
+                # only plain literals about it, one per predicate: RDF/XML can write that as property attributes
+                for pk in rng.sample(PRED_I, rng.randint(1, 2)):
+                    quads.append([a, "i%d" % pk, rng.choice(["l0", "l3"]), g])
+                continue
             for _k in range(rng.randint(0, 2)):
                 quads.append([a, pred(), obj(), g])
         else:
@@ -271,13 +306,16 @@ def _gen_doc(rng, sink, idx, pool, earlier, init_bn):
             quads.append(["n%d" % k, "i%d" % MARK_P, "l%d" % marker_lit(idx, k), dg])
             marks.append(k)
     into = None
-    if sink != "graph" and rng.random() < 0.3:
+    if sink not in PLAIN and rng.random() < 0.3:
         into = rng.choice(["i20", "i21"] + init_bn[:2])
-    return {"fmt": fmt, "quads": quads, "into": into, "style": _gen_style(rng)}, marks
+    return {"fmt": fmt, "quads": quads, "into": into, "style": _gen_style(rng, share)}, marks
 
 
 def gen_case(rng, tier, i):
-    sink = rng.choice(["graph", "ds", "ds", "ds", "cg"])
+    share = 0.3 if tier == "quick" else 0.5
+    sink = rng.choice(["graph", "ds", "ds", "ds", "cg"]) if rng.random() > share / 3 else "simple"
+    union = sink == "ds" and rng.random() < share / 2
+    reuse = rng.random() < share / 2        # every document of the case goes through one parser plugin object per syntax
     if rng.random() < 0.45:      # a family of near-collisions, used together in one document and across documents
         pool = rng.sample(NEAR, rng.randint(2, 4))
         if rng.random() < 0.6 and 0 not in pool:
@@ -292,7 +330,7 @@ def gen_case(rng, tier, i):
             pool[0] = rng.choice([0, 0, 4, 8])
     if rng.random() < 0.15:
         pool.append(EMPTY)       # (JSON-LD documents only; see label_ok)
-    graphs = ["i0"] if sink == "graph" else ["i0", "i20", "b%d" % pool[0]]
+    graphs = ["i0"] if sink in PLAIN else ["i0", "i20", "b%d" % pool[0]]
     init = []
     for _ in range(rng.randint(0, 3)):
         s = rng.choice(["b%d" % rng.choice(pool), "b%d" % rng.choice(pool), "i1"])
@@ -304,6 +342,8 @@ def gen_case(rng, tier, i):
     docs, earlier = [], []
     for idx in range(rng.randint(2, 4)):
         plain = [j for j, d0 in enumerate(docs) if not any(t.startswith("r") for q in d0["quads"] for t in q)]
+        plain = [j for j in plain if len(_anon_terms(docs[j])) <= 4
+                 or sum(1 for d0 in docs if d0["quads"] == docs[j]["quads"]) < 2]    # big documents: at most twice
         if plain and rng.random() < 0.3:      # the same document again (same text, or another syntax)
             si = rng.choice(plain)           # (not one that reads generated ids off the target: it would read other ids)
             src = docs[si]
@@ -312,24 +352,31 @@ def gen_case(rng, tier, i):
             fmts = compatible_fmts(src["quads"], sink)
             fmt = src["fmt"] if rng.random() < 0.6 or not fmts else rng.choice(fmts)
             d = {"fmt": fmt, "quads": [list(q) for q in src["quads"]], "into": src["into"] if rng.random() < 0.7 else None,
-                 "style": dict(src["style"]) if fmt == src["fmt"] else _gen_style(rng)}
+                 "style": dict(src["style"]) if fmt == src["fmt"] else _gen_style(rng, share)}
             docs.append(d)
             continue
-        d, marks = _gen_doc(rng, sink, idx, pool, earlier, init_bn)
+        d, marks = _gen_doc(rng, sink, idx, pool, earlier, init_bn, share)
         docs.append(d)
         if marks:
             earlier.append((idx, marks))
     fresh = rng.randrange(len(docs)) if rng.random() < 0.5 else None
-    return {"sink": sink, "init": init, "docs": docs, "fresh": fresh, "predict": rng.random() < 0.5}
+    return {"sink": sink, "init": init, "docs": docs, "fresh": fresh, "predict": rng.random() < 0.5, "union": union,
+            "reuse": reuse}
 
 
 # ---------------------------------------------------------------- running the implementation
 
-def _mk_sink(kind):
+PLAIN = ("graph", "simple")        # a single graph: Graph() on Memory, Graph(store="SimpleMemory") (not context-aware)
+SIMPLE_FMTS = ["nt", "turtle", "xml"]   # (N3 and JSON-LD refuse a store that is not context-aware)
+
+
+def _mk_sink(kind, union=False):
     if kind == "graph":
         return Graph()
+    if kind == "simple":
+        return Graph(store="SimpleMemory")
     if kind == "ds":
-        return Dataset()
+        return Dataset(default_union=True) if union else Dataset()
     return ConjunctiveGraph()
 
 
@@ -349,7 +396,7 @@ def _quads_of(t):
         for s, p, o in t:
             out.append((s, p, o, DEFAULT))
     # N3 formulae: a quoted graph is a graph named by the formula's blank node; quads() does not list quoted statements
-    for c in list(t.store.contexts()):
+    for c in list(t.store.contexts() or []):
         if isinstance(c, QuotedGraph):
             for s, p, o in c.triples((None, None, None)):
                 out.append((s, p, o, c.identifier))
@@ -417,23 +464,94 @@ FORMAT_NAME = {"nt": "nt", "nquads": "nquads", "turtle": "turtle", "n3": "n3", "
                "trix": "trix", "json-ld": "json-ld", "hext": "hext"}
 
 
-def _parse(target, kind, into_term, fmt, text, style, bnode_preds=False):
+def _parse(target, kind, into_term, fmt, text, style, bnode_preds=False, plugins=None, stats=None):
+    """one parse call, by the route the style asks for"""
+    def count(k):
+        if stats is not None:
+            stats["axis." + k] = stats.get("axis." + k, 0) + 1
+
     g = _graph_of(target, kind, into_term)
-    kw = {"format": FORMAT_NAME[fmt]}
+    if into_term is None and style.get("viewdefault") and kind in ("ds", "cg"):
+        g = target.default_graph if kind == "ds" else target.default_context     # the Graph view of the default graph
+        count("target.default_graph_view")
+    name = FORMAT_NAME[fmt]
+    route = style.get("route")
+    if route == "pyobj" and fmt != "json-ld":
+        route = None
+    fmtarg = style.get("fmtarg")
+    if fmtarg == "alias":
+        name = ALIASES[fmt][len(text) % len(ALIASES[fmt])]
+        count("format.alias")
+    guess = fmtarg == "guess" and route in ("location", "srcpath", "pathlib", "fileb", "filet") and fmt != "hext"
+    kw = {} if guess else {"format": name}
+    if guess:
+        count("format.guessed_from_file_name")
     if style.get("pub"):
         kw["publicID"] = "http://e/doc"
+        count("publicID")
     if fmt == "json-ld" and (bnode_preds or style.get("gen")):
         kw["generalized_rdf"] = True         # blank nodes allowed in predicate position ("_:p": … property keys)
+        count("jsonld.generalized_rdf")
     if style.get("defaults"):                # the label-handling options spelled out with their default values
         if fmt in ("xml", "trix"):
             kw["preserve_bnode_ids"] = False
         elif fmt in ("nt", "nquads", "hext", "json-ld"):
             kw["skolemize"] = False
-    if style.get("stream"):
+        if fmt in ("turtle", "n3", "trig"):
+            kw["encoding"] = "utf-8"
+        count("options.defaults_spelled_out")
+    if fmt == "json-ld" and style.get("jlopts"):
+        kw.update(version=1.1, base="http://e/base/", context={"zz": "http://e/zz"})
+        count("jsonld.version_base_context")
+    if style.get("plugin") and plugins is not None and fmt != "nquads" and not guess:
+        # one parser plugin object re-used for every document of that syntax in this case (Graph.parse makes a new one
+        # per call; N-Quads is left out: W3CNTriplesParser documents its label scope as "per instance")
+        inst = plugins.get(fmt)
+        if inst is None:
+            inst = plugins[fmt] = rdflib_plugin.get(name, RdflibParser)()
+        else:
+            count("plugin_object.reused")
+        src = create_input_source(data=text, format=name, publicID=kw.pop("publicID", None))
+        kw.pop("format", None)
+        sinkg = g.default_context if isinstance(g, ConjunctiveGraph) else g
+        count("route.plugin_object")
+        inst.parse(src, sinkg, **kw)
+        return
+    if route in ("location", "srcpath", "pathlib", "fileb", "filet"):
+        fd, path = tempfile.mkstemp(suffix=EXT[fmt], prefix="c12_")
+        try:
+            with os.fdopen(fd, "wb") as f:
+                f.write(text.encode("utf-8"))
+            count("route." + route)
+            if route == "location":
+                g.parse(location=path, **kw)
+            elif route == "srcpath":
+                g.parse(path, **kw)
+            elif route == "pathlib":
+                g.parse(pathlib.Path(path), **kw)
+            elif route == "fileb":
+                with open(path, "rb") as f:
+                    g.parse(file=f, **kw)
+            else:
+                with open(path, "r", encoding="utf-8", newline="") as f:
+                    g.parse(file=f, **kw)
+        finally:
+            os.unlink(path)
+    elif route == "insrc":
+        count("route.InputSource")
+        g.parse(create_input_source(data=text, format=kw.get("format")), **kw)
+    elif route == "pyobj":
+        obj = json.loads(text)
+        count("route.python_dict")
+        g.parse(data=obj if isinstance(obj, dict) else {"@graph": obj}, **kw)
+    elif style.get("stream"):
+        count("route.source_bytes_stream")
         g.parse(io.BytesIO(text.encode("utf-8")), **kw)
     elif style.get("bytes"):
+        count("route.data_bytes")
         g.parse(data=text.encode("utf-8"), **kw)
     else:
+        count("route.data_str")
         g.parse(data=text, **kw)
 
 
@@ -497,11 +615,24 @@ def _eff_into(case, doc):
     """the graph the document is parsed into: None (default graph) | "iN" | "bK" with bK a node of the initial content
     (a blank-node name that is not already in the target would be a new node supplied by the caller — avoided)"""
     into = doc.get("into")
-    if into is None or case["sink"] == "graph":
+    if into is None or case["sink"] in PLAIN:
         return None
     if into[0] == "b" and not any(into in q for q in case["init"]):
         return None
     return into
+
+
+def _iso(a, b, stats=None):
+    """isoutil.iso; when its search budget runs out (many interchangeable copies of one structure) fall back to the
+    canonical labelling below — counted, so that it stays rare"""
+    try:
+        return isoutil.iso(a, b)
+    except RuntimeError:
+        if stats is not None:
+            stats["iso_budget_fallback"] = stats.get("iso_budget_fallback", 0) + 1
+        ca = canon({tuple(_abs_term(x) for x in q) for q in a}, budget=20000)
+        cb = canon({tuple(_abs_term(x) if not str(x).startswith(("M", "F")) or not isinstance(x, BNode) else ("b", str(x)) for x in q) for q in b}, budget=20000)
+        return ca == cb and not ca.startswith("canon-budget")
 
 
 def _anon_terms(doc):
@@ -541,7 +672,7 @@ def _predicted_ids(case, pi):
     def nform(d):
         return 1 + len({q[3] for q in d["quads"] if q[3].startswith("a")}) if d["fmt"] == "n3" else 0
     between = nform(doc) + sum(nform(d) for d in case["docs"][:pi])
-    for c in scratch.store.contexts():
+    for c in scratch.store.contexts() or []:
         m = re.fullmatch(r"_:Formula(\d+)", str(c.identifier)) if isinstance(c, QuotedGraph) else None
         if m:
             ids.append("_:Formula%d" % (int(m.group(1)) + between))
@@ -551,7 +682,7 @@ def _predicted_ids(case, pi):
 
 def run_impl(case):
     kind = case["sink"]
-    target = _mk_sink(kind)
+    target = _mk_sink(kind, case.get("union"))
     init_bn = {}
 
     def bn_init(t):
@@ -560,11 +691,13 @@ def run_impl(case):
     merge = set()                 # the RDF merge, computed independently from the abstract documents
     for s, p, o, g in case["init"]:
         q = tuple(_rdf_term(t, bn_init) for t in (s, p, o, g))
-        gg = _graph_of(target, kind, None if q[3] == DEFAULT or kind == "graph" else q[3])
+        gg = _graph_of(target, kind, None if q[3] == DEFAULT or kind in PLAIN else q[3])
         gg.add(q[:3])
-        merge.add(q[:3] + ((DEFAULT if kind == "graph" else q[3]),))
+        merge.add(q[:3] + ((DEFAULT if kind in PLAIN else q[3]),))
     obs, viol = [], []
     stats = {"docs": len(case["docs"]), "sink_" + kind: 1}
+    plugins = {}                 # parser plugin objects shared by the documents of this case (style "plugin")
+    stats["axis.target." + kind + ("_default_union" if case.get("union") else "")] = 1
     pi = _predict_target(case)
     if pi is not None:
         stats["n3_id_guess_attempted"] = 1
@@ -603,10 +736,12 @@ def run_impl(case):
             into = _rdf_term(_eff_into(case, doc), bn_init)
             stats["into_named"] = stats.get("into_named", 0) + 1
         text = D.write(fmt, cq, doc["style"])
+        if case.get("reuse"):
+            doc = {**doc, "style": {**doc["style"], "plugin": True, "route": None, "fmtarg": None}}
         before, _ = _quads_of(target)
         err = "ok"
         try:
-            _parse(target, kind, into, fmt, text, doc["style"], _bnode_preds(doc))
+            _parse(target, kind, into, fmt, text, doc["style"], _bnode_preds(doc), plugins, stats)
         except core.CaseTimeout:
             raise
         except Exception as e:  # a valid document must parse
@@ -630,7 +765,7 @@ def run_impl(case):
                     return Literal(t[1], lang=t[3], datatype=URIRef(t[2]) if t[2] else None)
                 return fresh.setdefault(t, BNode("M%dx%s%s" % (idx, t[0], t[1])))
             merge.add((m(q[0]), m(q[1]), m(q[2]), where if q[3] is None else m(q[3])))
-        if err == "ok" and not isoutil.iso(after, merge):
+        if err == "ok" and not _iso(after, merge, stats):
             nb = len({x for q in after for x in q if isinstance(x, BNode)})
             nm = len({x for q in merge for x in q if isinstance(x, BNode)})
             viol.append(f"merge: after parsing document {idx} ({fmt}) the target is not the RDF merge of the old content "
@@ -646,17 +781,31 @@ def run_impl(case):
         doc = case["docs"][fi]
         cq, _ = _concrete_doc(case, fi, lambda i, k: "x")
         text = D.write(doc["fmt"], cq, doc["style"])
+        if case.get("reuse"):
+            doc = {**doc, "style": {**doc["style"], "plugin": True, "route": None, "fmtarg": None}}
         res = []
         for _ in range(2):
-            t = _mk_sink(kind)
+            t = _mk_sink(kind, case.get("union"))
             try:
-                _parse(t, kind, None, doc["fmt"], text, doc["style"], _bnode_preds(doc))
+                _parse(t, kind, None, doc["fmt"], text, doc["style"], _bnode_preds(doc), plugins)
             except Exception as e:
                 viol.append(f"parse-error: fresh target rejected document {fi}: {type(e).__name__}")
             res.append(_quads_of(t)[0])
         b0 = {x for q in res[0] for x in q if isinstance(x, BNode)}
         b1 = {x for q in res[1] for x in q if isinstance(x, BNode)}
-        if not isoutil.iso(res[0], res[1]):
+        alone, fr = set(), {}
+        for q in cq:        # the document merged into nothing
+            def m1(t):
+                if t[0] == "i":
+                    return URIRef(t[1])
+                if t[0] == "l":
+                    return _norm(Literal(t[1], lang=t[3], datatype=URIRef(t[2]) if t[2] else None))
+                return fr.setdefault(t, BNode("F%s%s" % (t[0], t[1])))
+            alone.add((m1(q[0]), m1(q[1]), m1(q[2]), DEFAULT if q[3] is None else m1(q[3])))
+        if not _iso(res[0], alone, stats):
+            viol.append(f"fresh-merge: document {fi} ({doc['fmt']}) parsed into a fresh target does not give the document's "
+                        f"own graph: {len(res[0])} quads, document has {len(alone)}")
+        if not _iso(res[0], res[1], stats):
             viol.append(f"fresh-iso: document {fi} ({doc['fmt']}) parsed into two fresh targets gives non-isomorphic results")
         if b0 & b1:
             viol.append(f"fresh-shared: document {fi} ({doc['fmt']}) parsed into two fresh targets shares blank node(s) "
@@ -679,6 +828,23 @@ def run_impl(case):
             stats["digit_label_with_anon_docs"] = stats.get("digit_label_with_anon_docs", 0) + 1
         if any(q[1] == "i30" for q in d["quads"]):
             stats["collection_docs"] = stats.get("collection_docs", 0) + 1
+        st = d["style"]
+        if d["fmt"] == "json-ld":
+            if st.get("jl"):
+                stats["axis.jsonld.shape_" + st["jl"]] = stats.get("axis.jsonld.shape_" + st["jl"], 0) + 1
+            if st.get("typekw") and any(q[1] == "i33" for q in d["quads"]):
+                stats["axis.jsonld.@type_keyword"] = stats.get("axis.jsonld.@type_keyword", 0) + 1
+            if any(q[1] == "i30" for q in d["quads"]) and not st.get("nocoll"):
+                stats["axis.jsonld.@list"] = stats.get("axis.jsonld.@list", 0) + 1
+        if d["fmt"] == "xml":
+            if any(q[1] == "i30" for q in d["quads"]) and not st.get("nocoll"):
+                stats["axis.rdfxml.collection_or_first_rest"] = stats.get("axis.rdfxml.collection_or_first_rest", 0) + 1
+            if st.get("propattr") and na:
+                stats["axis.rdfxml.property_attributes_style"] = stats.get("axis.rdfxml.property_attributes_style", 0) + 1
+        if d["fmt"] == "n3" and st.get("path") and na:
+            stats["axis.n3.path_style"] = stats.get("axis.n3.path_style", 0) + 1
+        if any(q[1] == "i33" for q in d["quads"]):
+            stats["axis.rdf_type_statements"] = stats.get("axis.rdf_type_statements", 0) + 1
         if _has_formula(d["quads"]):
             stats["formula_docs"] = stats.get("formula_docs", 0) + 1
         if any(t == "n%d" % EMPTY for q in d["quads"] for t in q):
@@ -765,7 +931,7 @@ def model_lines(case):
     lines = ["reset"]
     kind = case["sink"]
     for s, p, o, g in case["init"]:
-        lines.append("init %s %s %s %s" % (s, p, o, "i0" if kind == "graph" else g))
+        lines.append("init %s %s %s %s" % (s, p, o, "i0" if kind in PLAIN else g))
     pi = _predict_target(case)
     if pi is not None:
         for j in range(len(_anon_terms(case["docs"][pi]))):
@@ -829,6 +995,10 @@ def shrink(case):
         yield {**case, "fresh": None}
     if case.get("predict"):
         yield {**case, "predict": False}
+    if case.get("reuse"):
+        yield {**case, "reuse": False}
+    if case.get("union"):
+        yield {**case, "union": False}
     for i in range(len(docs)):
         if len(docs) > 1:
             yield _drop_doc(case, i)
